@@ -1931,8 +1931,10 @@ def check_scratch_reset(ck, facts, f, inst, inl):
             if "*" in ty and not view.writes.get(n["d"]) and var.get("init") is not None:
                 return array_of(var["init"], depth + 1)
             return None
-        if n.get("k") == "MCall" and n.get("n") == "data" and n.get("obj") is not None:
+        if n.get("k") == "MCall" and n.get("n") in ("data", "begin") and n.get("obj") is not None and not n.get("a"):
             return array_of(n["obj"], depth + 1)
+        if n.get("k") in ("Construct", "TempObj") and len(n.get("a", [])) == 1:
+            return array_of(n["a"][0], depth + 1)
         if n.get("k") == "Un" and n.get("op") == "&":
             e = strip(n["e"])
             if e.get("k") in ("Index", "OpCall"):
@@ -2078,7 +2080,7 @@ def check_scratch_reset(ck, facts, f, inst, inl):
                     if "std::vector" in ty:
                         init = strip(var.get("init") or {})
                         args = init.get("a", []) if init.get("k") in ("Construct", "TempObj") else []
-                        z = len(args) == 1 or (len(args) == 2 and (lambda rv: rv.get("k") in ("Int", "Float") and float(rv["v"]) == 0.0 or (rv.get("k") in ("Construct", "TempObj") and (not rv.get("a") or (len(rv["a"]) == 1 and view.value(rv["a"][0]).get("k") in ("Int", "Float") and float(view.value(rv["a"][0])["v"]) == 0.0))))(view.value(args[1])))
+                        z = len(args) == 0 or len(args) == 1 or (len(args) == 2 and (lambda rv: rv.get("k") in ("Int", "Float") and float(rv["v"]) == 0.0 or (rv.get("k") in ("Construct", "TempObj") and (not rv.get("a") or (len(rv["a"]) == 1 and view.value(rv["a"][0]).get("k") in ("Int", "Float") and float(view.value(rv["a"][0])["v"]) == 0.0))))(view.value(args[1])))
                         events.setdefault(e, []).append((var["d"], "clean" if z else "dirty", n))
             elif k in ("Call", "MCall"):
                 nm = (n.get("callee") or n.get("n") or "").rsplit("::", 1)[-1]
@@ -2090,8 +2092,12 @@ def check_scratch_reset(ck, facts, f, inst, inl):
                     ty = f.type(pt[pos]) if pos < len(pt) else ""
                     if ty.strip().startswith("const "):
                         continue
-                    if nm == "memset" and pos == 0 or nm in ("fill", "fill_n") and pos == 0:
-                        events.setdefault(e, []).append((arr, "clean", n))
+                    if nm in ("memset", "fill", "fill_n") and pos == 0:
+                        zv = view.value(n["a"][1 if nm == "memset" else 2]) if len(n.get("a", [])) == 3 else {}
+                        while zv.get("k") in ("Construct", "TempObj") and len(zv.get("a", [])) == 1:
+                            zv = view.value(zv["a"][0])
+                        zero = (zv.get("k") in ("Int", "Float") and float(zv["v"]) == 0.0) or (zv.get("k") in ("Construct", "TempObj", "ValueInit") and not zv.get("a"))
+                        events.setdefault(e, []).append((arr, "clean" if zero else "dirty", n))
                         continue
                     cal = inl.bydecl.get(n.get("cdecl"))
                     if zeroing_param(cal, pos):
@@ -2104,7 +2110,17 @@ def check_scratch_reset(ck, facts, f, inst, inl):
                     else:
                         events.setdefault(e, []).append((arr, "dirty", n))
                 if k == "MCall" and n.get("n") in ("assign",) and n.get("obj") is not None and array_of(n["obj"]) is not None:
-                    events.setdefault(e, []).append((array_of(n["obj"]), "clean", n))
+                    av_ = view.value(n["a"][1]) if len(n.get("a", [])) == 2 else {}
+                    while av_.get("k") in ("Construct", "TempObj") and len(av_.get("a", [])) == 1:
+                        av_ = view.value(av_["a"][0])
+                    z_ = (av_.get("k") in ("Int", "Float") and float(av_["v"]) == 0.0) or (av_.get("k") in ("Construct", "TempObj", "ValueInit") and not av_.get("a"))
+                    events.setdefault(e, []).append((array_of(n["obj"]), "clean" if z_ else "dirty", n))
+                if k == "MCall" and n.get("n") == "resize" and n.get("obj") is not None and array_of(n["obj"]) is not None and len(n.get("a", [])) == 2:
+                    av_ = view.value(n["a"][1])
+                    while av_.get("k") in ("Construct", "TempObj") and len(av_.get("a", [])) == 1:
+                        av_ = view.value(av_["a"][0])
+                    if not ((av_.get("k") in ("Int", "Float") and float(av_["v"]) == 0.0) or (av_.get("k") in ("Construct", "TempObj", "ValueInit") and not av_.get("a"))):
+                        events.setdefault(e, []).append((array_of(n["obj"]), "dirty", n))       # resize(n) / resize(n, 0) keep a clean array clean
             elif k == "Assign" and strip(n["lhs"]).get("k") in ("Index", "OpCall"):
                 t = strip(n["lhs"])
                 b2 = t["b"] if t.get("k") == "Index" else t["a"][0]
@@ -2165,7 +2181,7 @@ def check_capture(ck, S, ctors, fl, inst):
     seen = {}
     for c in ctors:
         cv = FnView(c)
-        pref = {p_["d"]: p_ for p_ in c.params if "&" in c.type(p_["t"]) and not re.search(r"\b(String|PropertyMap|basic_string)\b", c.type(p_["t"]))}
+        pref = {p_["d"]: p_ for p_ in c.params if ("&" in c.type(p_["t"]) or "*" in c.type(p_["t"])) and not re.search(r"\b(String|PropertyMap|basic_string)\b", c.type(p_["t"]))}
         for ini in c.d.get("inits") or []:
             mem = ini.get("member")
             init = ini.get("init")
@@ -2174,7 +2190,10 @@ def check_capture(ck, S, ctors, fl, inst):
             refs = [x for x in walk(init) if x.get("k") == "Ref" and x.get("d") in pref]
             if not refs:
                 continue
-            direct = strip(init).get("k") == "Ref" and strip(init).get("d") in pref
+            iv_ = strip(init)
+            while iv_.get("k") == "Un" and iv_.get("op") in ("*", "&"):
+                iv_ = strip(iv_["e"])          # reference member bound to *ptr, pointer member set to &ref
+            direct = iv_.get("k") == "Ref" and iv_.get("d") in pref
             st = seen.setdefault(mem, {"direct": True, "where": ini.get("l"), "param": refs[0]["n"], "how": render(init)[:70], "file": c.file})
             if not direct:
                 st["direct"] = False
